@@ -3,7 +3,9 @@
 // their behalf) resolve here first; each forwards to the next definition in
 // lookup order (the sanitizer's interceptor, then libc) unless the scenario says
 // otherwise.  Every call can be an *event* (monitor) and a *fault point*.
+#include <cxxabi.h>
 #include <dirent.h>
+#include <execinfo.h>
 #include <dlfcn.h>
 #include <errno.h>
 #include <fcntl.h>
@@ -663,6 +665,43 @@ struct dirent64* readdir64(DIR* d) {
     r->d_type = DT_UNKNOWN;
   }
   return r;
+}
+
+// ---------------------------------------------------------------- throw sites
+// remember where the most recent C++ exception was thrown, so that an exception that
+// escapes Oomd::run() (or terminates a thread) can be attributed to a call site
+void __cxa_throw(void* obj, void* tinfo, void (*dest)(void*)) {
+  typedef void (*fn_t)(void*, void*, void (*)(void*));
+  static fn_t real = nullptr;
+  if (!real) {
+    real = (fn_t)dlsym(RTLD_NEXT, "__cxa_throw");
+  }
+  if (g.armed && t_bypass == 0) {
+    Bypass b;
+    void* fr[24];
+    int n = backtrace(fr, 24);
+    std::string site;
+    for (int i = 1; i < n; ++i) {
+      Dl_info di;
+      if (dladdr(fr[i], &di) && di.dli_sname) {
+        int st = 0;
+        char* d = abi::__cxa_demangle(di.dli_sname, nullptr, nullptr, &st);
+        std::string name = (st == 0 && d) ? d : di.dli_sname;
+        free(d);
+        if (name.find("Oomd::") != std::string::npos && name.find("vh::") == std::string::npos) {
+          auto par = name.find('(');
+          site += (site.empty() ? "" : " < ") + name.substr(0, par);
+          if (std::count(site.begin(), site.end(), '<') >= 2) {
+            break;
+          }
+        }
+      }
+    }
+    std::lock_guard<std::mutex> l(g.mu);
+    g.last_throw = site;
+  }
+  real(obj, tinfo, dest);
+  __builtin_unreachable();
 }
 
 #ifdef VERIF_HAVE_SYSTEMD
